@@ -124,6 +124,7 @@ func (f *frame) ifaceContractCall(x ssa.CallInstruction, recv Val, args []Val, i
 	if !spec.HasAssign {
 		vc.note("interface contract %s has no assigns clause: havoc", key)
 		f.havocAllPreservingLocals(st, in, "interface call "+key)
+		f.assumePreserved(spec, env, pre, st)
 	} else {
 		pats := vc.assignPats(env, spec.Assigns)
 		if len(f.declFrames) > 0 && len(pats) > 0 {
